@@ -61,6 +61,7 @@ type c07Red struct {
 	Early int    `json:"early,omitempty"` // results written before consuming
 	Late  int    `json:"late,omitempty"`  // results written after consuming
 	A     string `json:"a,omitempty"`     // then: "" | cancel | cancelnil | panic
+	WM    string `json:"wm,omitempty"`    // how the reducer calls Write: "" directly | rec (inside a function that recovers panics, RunSafe style) | go (from a helper goroutine of its own, which it waits for)
 	RV    string `json:"rv,omitempty"`    // the VALUE of the result written: "" struct{k} | nil | nilptr | zero | empty | false | err | noout | slice | map | func | ptr | big (see c07ResultValue)
 }
 
@@ -72,7 +73,9 @@ type c07Case struct {
 	GenPanic int       `json:"gp"`              // -1 none; k: generator panics instead of sending item k (k==len: after the last)
 	GenTail  int       `json:"gt,omitempty"`    // generator sleeps before returning
 	Red      c07Red    `json:"r"`               //
-	Ctx      string    `json:"ctx,omitempty"`   // "" | deadline | cancelled | cancelat | custom (an own Context implementation, done at CtxAt, Err() an own error)
+	Ctx      string    `json:"ctx,omitempty"`   // "" | deadline | timeout | cancelled | cancelat | custom (an own Context implementation, done at CtxAt, Err() an own error)
+	Cause    string    `json:"cause,omitempty"` // the context is ended WITH A CAUSE (WithCancelCause / WithDeadlineCause / WithTimeoutCause; custom: an own implementation that is a child of a WithCancelCause context): own | eof | val | unc | noout | cwn | canceled | deadline | nil
+	Wrap     string    `json:"wrap,omitempty"`  // what is handed to WithContext is a descendant of that context: "" | child (WithCancel) | value (WithValue) | own (own implementation delegating to it)
 	Src      string    `json:"src,omitempty"`   // MapReduceChan only: "" unbuffered, fed by a goroutine | prefilled (buffered, filled and closed before the call)
 	CtxAt    int       `json:"at,omitempty"`    // ticks
 	Count    int       `json:"count,omitempty"` // > len(Items): the item list is Items repeated cyclically up to Count items (big inputs from a small description)
@@ -595,6 +598,30 @@ func (c *c07Ctx) Err() error {
 	return nil
 }
 
+// c07ChildCtx: an own Context implementation that is a child of another context
+// (delegates everything, Value included, so context.Cause sees the parent's cause).
+type c07ChildCtx struct{ parent context.Context }
+
+func (c c07ChildCtx) Deadline() (time.Time, bool) { return c.parent.Deadline() }
+func (c c07ChildCtx) Done() <-chan struct{}       { return c.parent.Done() }
+func (c c07ChildCtx) Err() error                  { return c.parent.Err() }
+func (c c07ChildCtx) Value(k any) any             { return c.parent.Value(k) }
+
+type c07CtxKey struct{}
+
+// c07CauseValue: the cause a context is ended with (nil: cancel(nil) / a nil cause).
+func c07CauseValue(kind string) error {
+	switch kind {
+	case "", "nil":
+		return nil
+	case "own":
+		return &c07Err{src: "cause"}
+	case "canceled":
+		return context.Canceled
+	}
+	return c07ErrValue(kind, "cause", 0)
+}
+
 func (c c07Case) userCancels() int {
 	if !c.hasReducer() {
 		return 0
@@ -865,7 +892,24 @@ func (r *c07Run) reducer(pipe <-chan any, w mr.Writer, cancel func(error)) {
 			r.results = append(r.results, rv)
 			r.mu.Unlock()
 			r.log(c07Event{kind: "write", src: "reducer"})
-			w.Write(rv)
+			switch rd.WM {
+			case "rec":
+				// the reducer guards its own body against panics
+				func() {
+					defer func() { _ = recover() }()
+					w.Write(rv)
+				}()
+			case "go":
+				// the write is made by a goroutine of the reducer's own
+				wrote := make(chan struct{})
+				go func() {
+					defer close(wrote)
+					w.Write(rv)
+				}()
+				<-wrote
+			default:
+				w.Write(rv)
+			}
 			k++
 		}
 	}
@@ -944,20 +988,45 @@ func (r *c07Run) run() {
 			}
 		}()
 	}
+	// With c.Cause the context is ended through the *Cause constructors: context.Cause
+	// then differs from Err. The statement knows one answer for a done context.
+	cause := c07CauseValue(c.Cause)
+	withCancel := func() {
+		if c.Cause != "" {
+			var cc context.CancelCauseFunc
+			ctx, cc = context.WithCancelCause(ctx)
+			ctxCancel = func() { cc(cause) }
+		} else {
+			ctx, ctxCancel = context.WithCancel(ctx)
+		}
+	}
 	switch c.Ctx {
 	case "deadline":
-		ctx, ctxCancel = context.WithDeadline(ctx, r.start.Add(at))
+		if c.Cause != "" {
+			ctx, ctxCancel = context.WithDeadlineCause(ctx, r.start.Add(at), cause)
+		} else {
+			ctx, ctxCancel = context.WithDeadline(ctx, r.start.Add(at))
+		}
+		if uc && c.ctxNear() {
+			atInstant(r.hurryUp)
+		}
+	case "timeout":
+		if c.Cause != "" {
+			ctx, ctxCancel = context.WithTimeoutCause(ctx, at, cause)
+		} else {
+			ctx, ctxCancel = context.WithTimeout(ctx, at)
+		}
 		if uc && c.ctxNear() {
 			atInstant(r.hurryUp)
 		}
 	case "cancelled":
-		ctx, ctxCancel = context.WithCancel(ctx)
+		withCancel()
 		ctxCancel()
 		if uc {
 			r.hurryUp()
 		}
 	case "cancelat":
-		ctx, ctxCancel = context.WithCancel(ctx)
+		withCancel()
 		cc := ctxCancel
 		atInstant(func() {
 			if uc {
@@ -966,6 +1035,19 @@ func (r *c07Run) run() {
 			cc()
 		})
 	case "custom":
+		if c.Cause != "" {
+			// an own implementation that is a child of a WithCancelCause context
+			withCancel()
+			ctx = c07ChildCtx{ctx}
+			cc := ctxCancel
+			atInstant(func() {
+				if uc {
+					r.hurryUp()
+				}
+				cc()
+			})
+			break
+		}
 		cu := &c07Ctx{done: make(chan struct{})}
 		ctx, ctxCancel = cu, cu.finish
 		atInstant(func() {
@@ -974,6 +1056,19 @@ func (r *c07Run) run() {
 			}
 			cu.finish()
 		})
+	}
+	if c.Ctx != "" {
+		switch c.Wrap {
+		case "child":
+			var cc2 context.CancelFunc
+			parentCancel := ctxCancel
+			ctx, cc2 = context.WithCancel(ctx)
+			ctxCancel = func() { parentCancel(); cc2() }
+		case "value":
+			ctx = context.WithValue(ctx, c07CtxKey{}, 1)
+		case "own":
+			ctx = c07ChildCtx{ctx}
+		}
 	}
 	r.ctx = ctx
 	var opts []mr.Option
@@ -1229,8 +1324,25 @@ func (r *c07Run) judge(res kit.BubbleResult) (v kit.Verdict) {
 	if c.Entry == "chan" && c.Src == "prefilled" {
 		cls["chan-source:prefilled"] = true
 	}
-	if c.Ctx == "custom" && !(c.Entry == "finish" || c.Entry == "finishvoid") {
+	if (c.Ctx == "custom" || c.Wrap == "own") && c.Ctx != "" && !(c.Entry == "finish" || c.Entry == "finishvoid") {
 		cls["ctx:own-implementation"] = true
+	}
+	if c.Ctx != "" && !(c.Entry == "finish" || c.Entry == "finishvoid") {
+		if c.Cause != "" {
+			cls["ctx:ended-with-cause"] = true
+			if c.ctxNear() {
+				cls["ctx-cause:"+c.Cause] = true
+			}
+		}
+		if c.Wrap != "" {
+			cls["ctx:descendant-handed-over"] = true
+		}
+	}
+	if (c.Entry == "mr" || c.Entry == "chan") && c.Red.Early+c.Red.Late > 0 && c.Red.WM != "" {
+		cls["reducer-write:"+c.Red.WM] = true
+		if c.Red.Early+c.Red.Late >= 2 {
+			cls["double-write:"+c.Red.WM] = true
+		}
 	}
 	if c.Red.A == "cancelpanic" && c.hasReducer() {
 		cls["cancel-then-panic"] = true
@@ -1940,15 +2052,28 @@ func c07Gen(zero bool) func(rt *rapid.T) c07Case {
 				c.GenExit = rapid.IntRange(0, 3).Draw(rt, "gx") == 0
 			}
 			if !fin && rapid.IntRange(0, 9).Draw(rt, "ctxkind") < 4 {
-				c.Ctx = rapid.SampledFrom([]string{"deadline", "deadline", "cancelat", "cancelled", "custom"}).Draw(rt, "ctx")
+				c.Ctx = rapid.SampledFrom([]string{"deadline", "deadline", "cancelat", "cancelled", "custom", "timeout"}).Draw(rt, "ctx")
 				if c.Ctx != "cancelled" {
 					c.CtxAt = mag("at", c07Pick(rt, "at", 0, 1, 2, 3, 4, 6, 9, 15, 40))
 				}
 			}
 		} else if !fin && rapid.IntRange(0, 5).Draw(rt, "ctxfar") == 0 {
 			// a context that is handed over but never done while the call runs
-			c.Ctx = rapid.SampledFrom([]string{"deadline", "cancelat", "custom"}).Draw(rt, "ctx")
+			c.Ctx = rapid.SampledFrom([]string{"deadline", "cancelat", "custom", "timeout"}).Draw(rt, "ctx")
 			c.CtxAt = c07Far
+		}
+		if c.Ctx != "" {
+			// the family of contexts: ended with a cause, and / or a descendant handed over
+			if rapid.IntRange(0, 2).Draw(rt, "hascause") == 0 {
+				ckinds := []string{"own", "eof", "nil", "canceled", "deadline", "val", "unc", "noout", "cwn"}
+				c.Cause = ckinds[rapid.IntRange(0, len(ckinds)-1).Draw(rt, "cause")]
+			}
+			if rapid.IntRange(0, 3).Draw(rt, "haswrap") == 0 {
+				c.Wrap = rapid.SampledFrom([]string{"child", "value", "own"}).Draw(rt, "wrap")
+			}
+		}
+		if c.Red.Early+c.Red.Late > 0 && rapid.IntRange(0, 3).Draw(rt, "wm") == 0 {
+			c.Red.WM = rapid.SampledFrom([]string{"rec", "go"}).Draw(rt, "wmk")
 		}
 		return c
 	}
